@@ -8,13 +8,12 @@ The engine model M6 abstracts a node to "content id", so this stream is judged b
 * C03: a body that ran although every file the task tracks has the content it had at the task's last SUCCESS is a needless run;
 * C02: after a build with exit code 0 the product of every task holds G(actual contents of its dependencies).
 
-Two genuine defects of the unchanged tree live here and are classified narrowly (everything else is a VIOLATION):
-* F61 (C02): the state of a protocol-UPath node on a file system without ETags is the constant "0" (`stat.as_info().get("ETag", "0")`):
-  a content change of such a file is never noticed. Class: the stale task was reported SKIP_UNCHANGED, some `file://` node of it
-  differs from the task's last-success snapshot and every other tracked file is as in the snapshot.
-* F62 (C03): `PathNode.signature` = `hash_value(path)`, and `hash_value` only knows `pathlib.Path`; a protocol UPath falls through to the
-  builtin, per-process salted `hash()`, so in a process with another PYTHONHASHSEED the node's rows are not found and the task runs again.
-  Class: the needlessly run task has a `file://` node and the build ran under a PYTHONHASHSEED other than that of its last SUCCESS.
+Two defects found with this stream were repaired in /repo (findings/F61.json, findings/F62.json — status fixed); their witnesses are
+replayed from corpus/C02 and corpus/C03 before the random projects and must be quiet:
+* F61 (C02, /repo 03538c0): the state of a protocol-UPath node on a file system without ETags was the constant "0"; now the memoised
+  content hash, as for local paths.
+* F62 (C03, /repo b1f66ea): `hash_value` did not know UPath, the signature of a protocol-UPath node was the salted builtin `hash()`.
+Nothing is classified as known here any more: every needless run and every stale product of the stream is a VIOLATION.
 """
 from __future__ import annotations
 
@@ -161,13 +160,12 @@ def judge(proj, obs):
         outcome = {n: oc for n, oc in res.get("reports", [])}
         for t in proj["tasks"]:
             tid = t["id"]
-            ufile = [n for n, k in zip(t["deps"] + [t["prod"]], t["dep_kinds"] + [t["prod_kind"]]) if k in ("ufile", "ufile_node")]
             sn = snaps.get(tid)
             now = {n: o["post"].get(n) for n in t["deps"]}
             now[t["prod"]] = o["pre"].get(t["prod"])
             # C03: needless run
             if tid in o["ran"] and sn is not None and now == sn["files"] and None not in now.values():
-                finding = "F62" if ufile and o["seed"] != sn["seed"] else None
+                finding = None
                 out.append(("C03", "needless", f"nodekinds: task t{tid} (node kinds {t['dep_kinds']} -> {t['prod_kind']}) was executed in build {bi} although every file "
                                                f"it tracks has the content of its last successful run (steps {proj['steps']}, hash seeds {proj['seeds']})", finding))
             # C02: product = G(actual dependency contents) after a successful build
@@ -176,19 +174,22 @@ def judge(proj, obs):
                 if None not in deps:
                     want = str(sum(c * int(v) for c, v in zip(t["coef"], deps)) + tid)
                     if o["post"].get(t["prod"]) != want:
-                        changed = [n for n in now if sn is not None and now[n] != sn["files"].get(n)]
-                        f61 = (outcome.get(f"task_t{tid}") == "SKIP_UNCHANGED" and sn is not None and changed and all(n in ufile for n in changed))
                         out.append(("C02", "scratch", f"nodekinds: build {bi} reported {res.get('reports')} with exit 0 but {t['prod']} of task t{tid} (node kinds "
                                                       f"{t['dep_kinds']} -> {t['prod_kind']}) holds {o['post'].get(t['prod'])!r}; from its dependencies {deps} follows "
-                                                      f"{want!r} (steps {proj['steps']}, hash seeds {proj['seeds']})", "F61" if f61 else None))
+                                                      f"{want!r} (steps {proj['steps']}, hash seeds {proj['seeds']})", None))
             if outcome.get(f"task_t{tid}") == "SUCCESS":
                 files = {n: o["post"].get(n) for n in t["deps"] + [t["prod"]]}
                 snaps[tid] = {"files": files, "seed": o["seed"]}
     return out
 
 
+def corpus(prop):
+    """witnesses of repaired findings (corpus/<prop>/nodekinds-*.json): replayed first, must be quiet"""
+    return [json.loads(f.read_text())["project"] for f in sorted((common.VERIF / "corpus" / prop).glob("nodekinds-*.json"))]
+
+
 def prepare(ctx):
-    return [gen_project(ctx.rng) for _ in range(ctx.scale(12, 120))]
+    return corpus(ctx.prop) + [gen_project(ctx.rng) for _ in range(ctx.scale(12, 120))]
 
 
 def execute(projs):
